@@ -443,7 +443,8 @@ func c16Position(r *core.Run, p *core.Program, wo, lb *ssa.Function) {
 	r.Check(okE, rule, "load/reset-before-raise", p.Pos(lb.Pos()), "a record of a newer data file first resets the data position, then raises it to its own end", "while loading, the data position is raised before it is reset for a newer file: the first record of each file does not count, so appending can overwrite it")
 }
 
-// c20SamePathDir: b reachable from a without loop back edges
+// c20SamePathDir: b reachable from a within one iteration of every loop that contains both
+// (back edges of a loop whose header dominates a and b are not followed; inner loops of a may be left)
 func c20SamePathDir(a, b *ssa.BasicBlock) bool {
 	seen := map[*ssa.BasicBlock]bool{}
 	st := []*ssa.BasicBlock{a}
@@ -458,8 +459,8 @@ func c20SamePathDir(a, b *ssa.BasicBlock) bool {
 		}
 		seen[x] = true
 		for _, s := range x.Succs {
-			if s.Dominates(x) {
-				continue
+			if s.Dominates(x) && s.Dominates(a) && s.Dominates(b) {
+				continue // next iteration of a common loop
 			}
 			st = append(st, s)
 		}
